@@ -33,7 +33,7 @@ def dump (se : Sess) (out : String) (dl ev : List Nat) : String :=
   let ffiles := (List.range se.nForeign).flatMap fun n =>
     match s.disk (.foreign n) with | some f => [fileStr "x" n f] | none => []
   s!"out={out} dl={natsStr dl} ev={natsStr (sortNat ev)} entries={natsStr (sortNat s.entries)} " ++
-  s!"files={" ".intercalate (files ++ ffiles)} order={natsStr (evictOrder s)} max={s.maxSize} total={total s}"
+  s!"files={" ".intercalate (files ++ ffiles)} order={natsStr (evictOrder s)} max={s.maxSize} total={total s} n={s.entries.length}"
 
 def outStr : Out → String
   | .paths ks => s!"paths[{natsStr ks}]"
